@@ -222,7 +222,8 @@ def asgRecv (a b : Ty) : Bool :=
        | .array e' r' => decide (r'.hi ≤ 0) || asg x e'
        | .bin => asg x (.int ⟨0, 255⟩)
        | .hash k' v' r' => decide (r'.hi ≤ 0) || asg x (.tuple [k', v'] none)
-       | .str | .strVal _ | .strSz _ => asg x (.strSz ⟨1, 1⟩)
+       | .str | .strVal _ | .strSz _ | .enum _ _ | .pattern _ => asg x (.strSz ⟨1, 1⟩)
+       | .struct ms' => iterMembers x ms'
        | .tuple ts' g' =>
            (if (tupleSize ts' g').hi ≤ 0 then true else if ts'.isEmpty then asg x .any else tupZip [x] ts' (tupleSize ts' g').hi)
        | .iterable y => asg x y
@@ -286,6 +287,18 @@ def tupZip (as bs : List Ty) (k : Int) : Bool :=
   | a :: a' :: as, [b] => asg a b && tupZip (a' :: as) [b] (k - 1)
   | a :: a' :: as, b :: b' :: bs => asg a b && tupZip (a' :: as) (b' :: bs) (k - 1)
 termination_by (Ty.wl as + Ty.wl bs, 0)
+decreasing_by
+  all_goals simp_wf
+  all_goals (try simp only [Ty.w, Ty.wl, Ty.wm] at *)
+  all_goals first | (apply Prod.Lex.left; omega) | (apply Prod.Lex.right; omega)
+
+/-- `IterableType.IsAssignable(Struct)` (fix of /repo: a Struct is a Hash type): the element type accepts the entry type
+    `Tuple[String[name], value type]` of every member -/
+def iterMembers (x : Ty) (ms : List Member) : Bool :=
+  match ms with
+  | [] => true
+  | (n, _, t) :: rest => asg x (.tuple [.strVal n, t] none) && iterMembers x rest
+termination_by (x.w + Ty.wm ms, 0)
 decreasing_by
   all_goals simp_wf
   all_goals (try simp only [Ty.w, Ty.wl, Ty.wm] at *)
